@@ -333,7 +333,11 @@ bool Hash2KeysSetOf<THasher>::putIfNotPresent(const void* key1, int key2)
 
     // If we've grown too big, expand the table and rehash.
     if (fCount >= threshold)
+    {
         rehash();
+        // the bucket index found above was computed for the old modulus
+        hashVal = fHasher.getHashVal(key1, fHashModulus);
+    }
 
     if(fAvailable==0)
         newBucket = (Hash2KeysSetBucketElem*)fMemoryManager->allocate(sizeof(Hash2KeysSetBucketElem));
